@@ -80,3 +80,40 @@ Theorem C09_order_indep_real : forall (answers answers' : list ramap) (n : strin
   lookup n (fst (gndc_R answers)) = lookup n (fst (gndc_R answers')).
 Proof. exact gndc_R_order_indep. Qed.
 Print Assumptions C09_order_indep_real.
+
+(* three or more plugins, binary64: the weighted sums (and the weight sums)
+   computed for two answer orders differ by at most
+       2 * (EA (n-1) * T + EB (n-1)),
+   T the exact sum of value * weight over the n plugins, for non-negative
+   values and weights and intermediate values that stay finite.  EA(k) is about
+   (2k+1) * 2^-53 (EA 3 <= 2^-50: four plugins), EB(k) a few units of 2^-100
+   (a generous stand-in for the underflow unit).  So the aggregated usage / rate /
+   weight are order independent up to a few units in the last place. *)
+From Verif Require Import Cobalt.MergeErrorProofs.
+From Flocq Require Import IEEE754.Binary.
+
+Theorem C09_order_close_weighted_sum : forall (f : fndc -> f64) (i1 : fndc) rest (j1 : fndc) rest',
+  Permutation (i1 :: rest) (j1 :: rest') ->
+  Forall (nonneg_info f) (i1 :: rest) ->
+  f_finite (fmul (f i1) (n_weight i1)) = true -> fin_run f (fmul (f i1) (n_weight i1)) rest ->
+  f_finite (fmul (f j1) (n_weight j1)) = true -> fin_run f (fmul (f j1) (n_weight j1)) rest' ->
+  let T := Rsum' (map (term f) (i1 :: rest)) in
+  (Rabs (B2R 53 1024 (wsum fadd fmul f i1 rest) - B2R 53 1024 (wsum fadd fmul f j1 rest')) <=
+   2 * (EA (List.length rest) * T + EB (List.length rest)))%R.
+Proof. exact wsum_order_close. Qed.
+Print Assumptions C09_order_close_weighted_sum.
+
+Theorem C09_order_close_weight_sum : forall (i1 : fndc) rest (j1 : fndc) rest',
+  Permutation (i1 :: rest) (j1 :: rest') ->
+  Forall (fun i : fndc => (0 <= B2R 53 1024 (n_weight i))%R) (i1 :: rest) ->
+  f_finite (n_weight i1) = true -> fin_run_w (n_weight i1) rest ->
+  f_finite (n_weight j1) = true -> fin_run_w (n_weight j1) rest' ->
+  let W := Rsum' (map (fun i => B2R 53 1024 (n_weight i)) (i1 :: rest)) in
+  (Rabs (B2R 53 1024 (sumw fadd i1 rest) - B2R 53 1024 (sumw fadd j1 rest')) <=
+   2 * (EA (List.length rest) * W + EB (List.length rest)))%R.
+Proof. exact sumw_order_close. Qed.
+Print Assumptions C09_order_close_weight_sum.
+
+Theorem C09_error_size_four_plugins : (EA 3 <= / 1125899906842624)%R.
+Proof. exact EA3_small. Qed.
+Print Assumptions C09_error_size_four_plugins.
